@@ -56,7 +56,7 @@ def find_item(path, kind, name, impl=None):
 
 
 def b64(s):
-    return base64.b64encode(s.encode()).decode()
+    return base64.urlsafe_b64encode(s.encode()).decode()   # urlsafe: a plain "/" before the closing "*/" would open a nested comment
 
 
 def G(label, text):
@@ -68,12 +68,12 @@ def R(rule, orig, new):
 
 
 ERASE_G = re.compile(r'/\*@G .*?\*/.*?/\*@/G\*/', re.S)
-ERASE_R = re.compile(r'/\*@R(\w+) ([A-Za-z0-9+/=]*)\*/.*?/\*@/R\*/', re.S)
+ERASE_R = re.compile(r'/\*@R(\w+) ([A-Za-z0-9+/=_-]*)\*/.*?/\*@/R\*/', re.S)
 
 
 def erase(text):
     text = ERASE_G.sub(' ', text)
-    text = ERASE_R.sub(lambda m: ' ' + base64.b64decode(m.group(2)).decode() + ' ', text)
+    text = ERASE_R.sub(lambda m: ' ' + base64.urlsafe_b64decode(m.group(2)).decode() + ' ', text)
     return text
 
 
@@ -336,10 +336,10 @@ def extract_fn(item, opts, blocks, rewrites_log, as_stub=False):
                     cb = match_close(toks, ci, e)
                     nloop_b += 1
                     s0 = tk(q)[2]; e0 = tk(e)[3]
-                    new = ('for %s in verif_it: 0..verif_chunk_count(%s.len(), %s) %s{%s let %s = verif_chunk_mut(%s, %s, %s);'
+                    new = ('for %s in verif_it: 0..verif_chunk_count(%s.len(), %s) %s{%s let %s = %s(%s, %s, %s);'
                            % (iv, xexpr, nexpr, G('iterloop %d' % nloop_b, '\n' + blocks.get('iterloop %d' % nloop_b, '').rstrip() + '\n'),
                               G('iterbody %d' % nloop_b, '\n' + blocks.get('iterbody %d' % nloop_b, '').rstrip() + '\n') if blocks.get('iterbody %d' % nloop_b) else '',
-                              pv, xexpr, iv, nexpr))
+                              pv, 'verif_chunk_mut_s' if opts.get('chunkslice') == '1' else 'verif_chunk_mut', xexpr, iv, nexpr))   # chunkslice=1: X is a `&mut [T]` (reborrowed), not a Vec
                     edits.append((s0, e0, R('4', text[s0:e0], new)))
                     pos = tk(cb)[2]
                     edits.append((pos, pos, G('iterend %d' % nloop_b, '\n' + blocks.get('iterend %d' % nloop_b, '').rstrip() + '\n')))
@@ -559,9 +559,16 @@ def extract_fn(item, opts, blocks, rewrites_log, as_stub=False):
                 raise GenErr('%s: loop #%d not found (%d loops)' % (item.name, k, len(loops)))
             pos = tk(loops[k - 1][1])[2]
             edits.append((pos, pos, G(key, '\n' + gtxt.rstrip() + '\n')))
-        elif key.startswith('before ') or key.startswith('after ') or key.startswith('loopend ') or key.startswith('blockend '):
+        elif key.startswith('before ') or key.startswith('after ') or key.startswith('loopend ') or key.startswith('blockend ') or key.startswith('loopstart ') or key.startswith('afterloop '):
             kind, n, anchor = key.split(' ', 2)
             n = int(n)
+            if kind in ('loopstart', 'afterloop'):
+                # structural anchors: first thing in the body of loop n / right after loop n (no source text to lose)
+                if n < 1 or n > len(loops): raise GenErr('%s: loop #%d not found' % (item.name, n))
+                if kind == 'loopstart': pos = tk(loops[n - 1][1])[3]
+                else: pos = tk(match_close(toks, ci, loops[n - 1][1]))[3]
+                edits.append((pos, pos, G(key, '\n' + gtxt.rstrip() + '\n')))
+                continue
             if kind == 'loopend':
                 k = n
                 if k < 1 or k > len(loops):
@@ -712,6 +719,7 @@ class Unit:
         self.name = name
         self.properties = []
         self.min_verified = 1
+        self.rlimit = None
         self.segments = []   # (text, origin)
         self.functions = []  # dict(name, path, line, sha, out_start, out_end, stub)
         self.rewrites = []
@@ -769,8 +777,8 @@ def parse_extract_blocks(lines, i):
                 cur = 'loopiter %d %s' % (int(d.split()[1]), d.split()[2])
             elif d.split()[0] in ('iterloop', 'iterend', 'iterbody'):
                 cur = '%s %d' % (d.split()[0], int(d.split()[1]))
-            elif d.split()[0] in ('loop', 'loopend'):
-                cur = '%s %d' % (d.split()[0], int(d.split()[1])) if d.split()[0] == 'loop' else 'loopend %d -' % int(d.split()[1])
+            elif d.split()[0] in ('loop', 'loopend', 'loopstart', 'afterloop'):
+                cur = '%s %d' % (d.split()[0], int(d.split()[1])) if d.split()[0] == 'loop' else '%s %d -' % (d.split()[0], int(d.split()[1]))
             elif d.split()[0] in ('before', 'after', 'blockend'):
                 mm = re.match(r'(before|after|blockend)\s+(?:(\d+)\s+)?(.+)$', d)
                 cur = '%s %d %s' % (mm.group(1), int(mm.group(2) or 1), mm.group(3).strip())
@@ -842,6 +850,7 @@ def generate(unit_name):
         if words[0] == 'unit': i += 1; continue
         if words[0] == 'property': u.properties = words[1:]; i += 1; continue
         if words[0] == 'min_verified': u.min_verified = int(words[1]); i += 1; continue
+        if words[0] == 'rlimit': u.rlimit = int(words[1]); i += 1; continue   # solver budget for this unit (verus --rlimit)
         if words[0] == 'note': i += 1; continue
         if words[0] in ('extract', 'extract!'):
             rest, opts = parse_kv(words[1:])
@@ -1055,14 +1064,14 @@ def origin_of(u, line, col=1):
         if m.start() >= local: break
         srcline += segtext.count('\n', pos, m.start())
         if m.group(0).startswith('/*@R'):
-            srcline += base64.b64decode(m.group(2)).decode().count('\n')
+            srcline += base64.urlsafe_b64decode(m.group(2)).decode().count('\n')
         pos = m.end()
     if pos <= local:
         srcline += segtext.count('\n', pos, local)
     return ('%s:%d' % (o[1], srcline), owner)
 
 
-SENT = re.compile(r'/\*@G .*?\*/.*?/\*@/G\*/|/\*@R(\w+) ([A-Za-z0-9+/=]*)\*/.*?/\*@/R\*/', re.S)
+SENT = re.compile(r'/\*@G .*?\*/.*?/\*@/G\*/|/\*@R(\w+) ([A-Za-z0-9+/=_-]*)\*/.*?/\*@/R\*/', re.S)
 
 
 def scan_trusted(text):
